@@ -475,6 +475,18 @@ def observe_shape(e):
         o["sw"] = repr(e.stroke_width)
     m = e.transform
     o["m"] = [float(m.a), float(m.b), float(m.c), float(m.d), float(m.e), float(m.f)]
+    try:
+        k = o["kind"]
+        if k == "rect":
+            o["fields"] = [float(e.x), float(e.y), float(e.width), float(e.height), float(e.rx), float(e.ry)]
+        elif k in ("circle", "ellipse"):
+            o["fields"] = [float(e.cx), float(e.cy), float(e.rx), float(e.ry)]
+        elif k == "line":
+            o["fields"] = [float(e.x1), float(e.y1), float(e.x2), float(e.y2)]
+        elif k in ("polyline", "polygon"):
+            o["fields"] = [float(v) for p in e.points for v in (p.x, p.y)]
+    except Exception:
+        o["fields"] = None
     if isinstance(e, Path):
         try:
             o["segs"] = pl.observe_path(e)       # the path's own segments (untransformed when parsed with reify=False)
@@ -530,7 +542,13 @@ def parse_model(out):
         k = [j for j, x in enumerate(rest) if x.startswith("D:")][0]
         d["opts"] = [None if x == "-" else hexf(x) for x in rest[:k] if x != ""]
         d["d"] = bytes.fromhex(rest[k][2:]).decode()
-        ptoks = rest[k + 1:]
+        after = [x for x in rest[k + 1:]]
+        kp = after.index("P:") if "P:" in after else len(after)
+        rt = [x for x in after[:kp] if x != ""]
+        if rt and rt[0] == "R:":
+            nr = int(rt[1])
+            d["reified"] = {"nums": [hexf(x) for x in rt[2:2 + nr]], "m": [hexf(x) for x in rt[2 + nr:8 + nr]], "sw": hexf(rt[8 + nr])}
+        ptoks = after[kp:]
         d["psegs"] = pl.parse_model_segs(" ".join(ptoks[1:])) if d["kind"] == "path" and ptoks and ptoks[0] == "P:" else None
         shapes.append(d)
     return "OK", shapes
@@ -574,6 +592,26 @@ def path_data_diff(obs_shape, ms):
     if any(v != w for v, w in zip(obs_shape["m"], ms["m"])) and False:
         return None
     return pl.segs_diff(obs_shape["segs"], ms["psegs"], 1e-9)
+
+
+def reified_diff(obs_t, ms, tol=1e-9):
+    """a shape parsed with reify=True against the Lean model of reify(): the shape's own numbers, its residual matrix and
+    its stroke width"""
+    r = ms.get("reified")
+    if r is None or obs_t.get("fields") is None or ms["kind"] == "path":
+        return None
+    scale = max([1.0] + [abs(v) for v in r["nums"] + r["m"]])
+    if len(obs_t["fields"]) != len(r["nums"]):
+        return "reified %s has %d numbers, model %d" % (ms["kind"], len(obs_t["fields"]), len(r["nums"]))
+    for i, (a, b) in enumerate(zip(obs_t["fields"], r["nums"])):
+        if abs(a - b) > tol * scale:
+            return "reified %s: number %d is %r, model %r" % (ms["kind"], i, a, b)
+    for i, (a, b) in enumerate(zip(obs_t["m"], r["m"])):
+        if abs(a - b) > tol * scale:
+            return "reified %s: residual matrix entry %d is %r, model %r" % (ms["kind"], i, a, b)
+    if isinstance(obs_t["sw"], float) and abs(obs_t["sw"] - r["sw"]) > 1e-9 * max(1.0, abs(r["sw"])):
+        return "reified %s: stroke width %r, model %r" % (ms["kind"], obs_t["sw"], r["sw"])
+    return None
 
 
 def geom_diff(obs_abs, ms, tol=1e-7):
